@@ -9,14 +9,14 @@ EXTENDS Integers, Sequences, FiniteSets, TLC, Json
 CONSTANTS Depth, HasPart, HasSink
 Groups == {"mesh", "part", "sink"}
 Classes == {"full", "level", "value", "position", "position_cpus", "cpus", "g_mesh", "g_part", "g_mesh_part", "g_sink", "off_part", "off_mesh",
-            "vars_mesh", "vars_part", "sort_mesh", "sort_part", "sort_sink"}
+            "vars_mesh", "vars_part", "sort_mesh", "sort_part", "sort_sink", "sortx_part"}      \* sortx_part: loads the particles only, its sortby also names the mesh
 \* groups a call of class k (re)produces
 \* the sink table (a CSV next to the cpu files) is parsed anew by every call that does not exclude the group
 Produces(k) ==
   LET cpu == IF HasPart THEN {"mesh", "part"} ELSE {"mesh"}
       sink == IF HasSink THEN {"sink"} ELSE {} IN
   CASE k \in {"g_mesh"}              -> {"mesh"}
-    [] k \in {"g_part"}              -> cpu \cap {"part"}
+    [] k \in {"g_part", "sortx_part"} -> cpu \cap {"part"}
     [] k = "g_mesh_part"             -> cpu
     [] k = "g_sink"                  -> sink
     [] k \in {"off_part"}            -> {"mesh"} \cup sink
